@@ -29,6 +29,7 @@ type Service struct {
 	client envoy.AuthorizationClient
 	Port   int
 	logf   *os.File
+	exited chan struct{}
 }
 
 // ServiceBinary returns the path of the binary built by bin/check ("" if not available).
@@ -45,8 +46,19 @@ func freePort() int {
 
 var svcCounter int64
 
-// StartService writes the configuration to a file, starts the binary on free ports and waits until it serves.
-func StartService(cfg *configv1.Config) (*Service, error) {
+// StartService starts the binary, retrying with fresh ports when another process grabbed a port in between.
+func StartService(cfg *configv1.Config) (s *Service, err error) {
+	for attempt := 0; attempt < 6; attempt++ {
+		if s, err = startService(cfg); err == nil {
+			return s, nil
+		}
+		time.Sleep(time.Duration(50*(attempt+1)) * time.Millisecond)
+	}
+	return nil, err
+}
+
+// startService writes the configuration to a file, starts the binary on free ports and waits until it serves.
+func startService(cfg *configv1.Config) (*Service, error) {
 	bin := ServiceBinary()
 	if bin == "" {
 		return nil, fmt.Errorf("no service binary")
@@ -72,9 +84,20 @@ func StartService(cfg *configv1.Config) (*Service, error) {
 	if err := s.cmd.Start(); err != nil {
 		return nil, err
 	}
+	s.exited = make(chan struct{})
+	go func() { _ = s.cmd.Wait(); close(s.exited) }()
 	addr := fmt.Sprintf("127.0.0.1:%d", s.Port)
 	deadline := time.Now().Add(20 * time.Second)
+	died := func() error {
+		b, _ := os.ReadFile(path + ".log")
+		return fmt.Errorf("service exited during start-up: %s", b)
+	}
 	for {
+		select {
+		case <-s.exited:
+			return nil, died()
+		default:
+		}
 		c, err := net.DialTimeout("tcp", addr, 200*time.Millisecond)
 		if err == nil {
 			c.Close()
@@ -86,6 +109,13 @@ func StartService(cfg *configv1.Config) (*Service, error) {
 			return nil, fmt.Errorf("service did not start: %s", b)
 		}
 		time.Sleep(30 * time.Millisecond)
+	}
+	// the port may have been answered by ANOTHER process that grabbed it in the meantime, in which case ours fails to
+	// bind and exits: make sure it is still alive a moment later
+	select {
+	case <-s.exited:
+		return nil, died()
+	case <-time.After(150 * time.Millisecond):
 	}
 	s.conn, err = grpc.NewClient(addr, grpc.WithTransportCredentials(insecure.NewCredentials()))
 	if err != nil {
@@ -114,7 +144,9 @@ func (s *Service) Stop() {
 	}
 	if s.cmd != nil && s.cmd.Process != nil {
 		_ = s.cmd.Process.Kill()
-		_, _ = s.cmd.Process.Wait()
+		if s.exited != nil {
+			<-s.exited
+		}
 	}
 	if s.logf != nil {
 		_ = s.logf.Close()
